@@ -1200,25 +1200,25 @@ namespace Pistache::Http
 
     void Timeout::disarm()
     {
-        if (transport && armed)
+        if (transport && state->armed)
         {
-            transport->disarmTimer(timerFd);
+            transport->disarmTimer(state->timerFd);
         }
     }
 
-    bool Timeout::isArmed() const { return armed; }
+    bool Timeout::isArmed() const { return state->armed; }
 
     Timeout::Timeout(Tcp::Transport* transport_, Http::Version version, Handler* handler_,
                      std::weak_ptr<Tcp::Peer> peer_)
         : handler(handler_)
         , version(version)
         , transport(transport_)
-        , armed(false)
-        , timerFd(-1)
+        , state(std::make_shared<State>())
         , peer(peer_)
     { }
 
-    void Timeout::onTimeout(uint64_t /*numWakeup*/)
+    void Timeout::onTimeout(Handler* handler, Http::Version version, Tcp::Transport* transport,
+                            const std::weak_ptr<Tcp::Peer>& peer, uint64_t /*numWakeup*/)
     {
         auto sp = peer.lock();
         if (!sp)
